@@ -12,10 +12,26 @@ type scriptWriter struct {
 	resps []resp
 	got   []byte // everything accepted
 	calls int
+	// no-progress accounting for the C06 oracle: consecutive calls that were
+	// offered data and accepted nothing, and the longest such streak since
+	// the last resetStreak (one decoder operation).
+	idle, maxIdle int
 }
 
-func (w *scriptWriter) Write(p []byte) (int, error) {
+func (w *scriptWriter) resetStreak() { w.idle, w.maxIdle = 0, 0 }
+
+func (w *scriptWriter) Write(p []byte) (n int, err error) {
 	w.calls++
+	defer func() {
+		if len(p) > 0 && n == 0 {
+			w.idle++
+			if w.idle > w.maxIdle {
+				w.maxIdle = w.idle
+			}
+		} else {
+			w.idle = 0
+		}
+	}()
 	if len(w.resps) == 0 {
 		w.got = append(w.got, p...)
 		return len(p), nil
